@@ -28,9 +28,11 @@ type PropSpec struct {
 	Assumes    []string          `json:"assumptions"`
 	Bounded    []BoundedStandin  `json:"bounded_standins"`
 	Replays    map[string]string `json:"replays"` // obligation-name regexp -> driver
-	Anchors    []string          `json:"anchors"` // function names whose disappearance is a violation
-	Files      []string          `json:"files"`   // verify every function declared in these files (path suffixes)
-	FileKinds  []string          `json:"file_kinds"`
+	// ReplayProbes: [driver, obligation name] pairs run in the thorough tier against the current tree
+	ReplayProbes [][]string `json:"replay_probes"`
+	Anchors      []string   `json:"anchors"` // function names whose disappearance is a violation
+	Files        []string   `json:"files"`   // verify every function declared in these files (path suffixes)
+	FileKinds    []string   `json:"file_kinds"`
 }
 
 type PropFunc struct {
@@ -559,6 +561,31 @@ func cmdCheck(args []string) {
 			fmt.Println("   ", firstLines(v.ob.Output, 12))
 		}
 	}
+	// thorough tier: the replay drivers of the defects that were found and repaired are run against the current tree.
+	// Each driver reproduces one concrete failing input on the real code; a driver that reproduces its failure again
+	// is reported under the obligation that first exposed the defect.
+	var probeOut []map[string]interface{}
+	if *tier == "thorough" {
+		for _, pr := range spec.ReplayProbes {
+			if len(pr) != 2 {
+				continue
+			}
+			drv, obName := pr[0], pr[1]
+			ob := &Obligation{Name: obName, Kind: obKindFromName(obName), Status: "replayed"}
+			os.MkdirAll(replayDir, 0o755)
+			path := filepath.Join(replayDir, "probe_"+sanitize(drv)+".json")
+			ok, out := runReplayDriver(*root, *repo, drv, ob, path)
+			probeOut = append(probeOut, map[string]interface{}{"driver": drv, "obligation": obName, "reproduced": ok})
+			if ok {
+				exit = 1
+				rep := map[string]interface{}{"property": id, "obligation": obName, "reason": "the replay driver of a repaired defect reproduces its failure on the current tree",
+					"replay_driver": drv, "replay_output": out, "reproduced_on_real_code": true}
+				d, _ := json.MarshalIndent(rep, "", " ")
+				os.WriteFile(path, d, 0o644)
+				fmt.Printf("VIOLATION property=%s replay=%s obligation=%s\n", id, path, obName)
+			}
+		}
+	}
 	// evidence
 	var funcs []map[string]interface{}
 	assumedSet := map[string]bool{}
@@ -618,6 +645,7 @@ func cmdCheck(args []string) {
 		"known_findings":           kfOut,
 		"undecided_new":            undecidedNew,
 		"retired":                  retired,
+		"replay_probes":            probeOut,
 		"bounded_standins":         standins,
 		"not_decided":              spec.NotDecided,
 		"notes":                    notes,
